@@ -157,3 +157,113 @@ func (e *Engine) atomicSectionObligations(rules []AtomicSections) []*Obligation 
 	}
 	return out
 }
+
+// PanicSafeLocks: code that may panic (a call through a function value or an interface method: user-supplied storage
+// functions, hooks, codecs) does not run while the named mutex is held, unless the unlock is deferred right after the
+// lock. A recovered panic (C22) would otherwise leave the mutex locked for good.
+type PanicSafeLocks struct {
+	Functions []string `json:"functions"` // keys relative to the module
+	Mutex     string   `json:"mutex"`     // field name of the mutex
+	Why       string   `json:"why"`
+}
+
+func (e *Engine) panicSafeLockObligations(rules []PanicSafeLocks) []*Obligation {
+	var out []*Obligation
+	for _, r := range rules {
+		for _, rel := range r.Functions {
+			k := modPath + "/" + rel
+			fi := e.funcs[k]
+			if fi == nil || fi.Body == nil {
+				out = append(out, &Obligation{Name: "effect:function-loaded(" + rel + ")", Fn: k, Kind: "effect", Desc: "function is loaded for the lock scan", Goal: "false", Status: "error", Backend: "ast-scan"})
+				continue
+			}
+			info := fi.Pkg.TypesInfo
+			c := &FnCtx{e: e, fi: fi, info: info}
+			o := &Obligation{Name: "effect:panic-safe-lock(" + r.Mutex + ")", Fn: k, Kind: "effect", Backend: "ast-scan", Goal: "true", Status: "unsat", Pos: c.pos(fi.Body.Pos()),
+				Desc: "effect contract: " + shortFn(k) + " makes no call through a function value or interface while it holds " + r.Mutex + " without a deferred unlock (" + r.Why + ")"}
+			isMutexCall := func(n ast.Node, names ...string) bool {
+				call, ok := n.(*ast.CallExpr)
+				if !ok {
+					return false
+				}
+				sel, ok := ast.Unparen(call.Fun).(*ast.SelectorExpr)
+				if !ok {
+					return false
+				}
+				inner, ok := ast.Unparen(sel.X).(*ast.SelectorExpr)
+				if !ok || inner.Sel.Name != r.Mutex {
+					return false
+				}
+				for _, nm := range names {
+					if sel.Sel.Name == nm {
+						return true
+					}
+				}
+				return false
+			}
+			// deferred unlocks: a lock whose very next statement defers the unlock is safe
+			safeLocks := map[ast.Node]bool{}
+			ast.Inspect(fi.Body, func(n ast.Node) bool {
+				blk, ok := n.(*ast.BlockStmt)
+				if !ok {
+					return true
+				}
+				for i := 0; i+1 < len(blk.List); i++ {
+					es, ok := blk.List[i].(*ast.ExprStmt)
+					if !ok || !isMutexCall(es.X, "Lock", "RLock") {
+						continue
+					}
+					if ds, ok := blk.List[i+1].(*ast.DeferStmt); ok && isMutexCall(ds.Call, "Unlock", "RUnlock") {
+						safeLocks[es.X] = true
+					}
+				}
+				return true
+			})
+			held := false
+			ast.Inspect(fi.Body, func(n ast.Node) bool {
+				if _, isLit := n.(*ast.FuncLit); isLit && n != ast.Node(fi.Lit) {
+					return false
+				}
+				if _, isDefer := n.(*ast.DeferStmt); isDefer {
+					return false
+				}
+				call, ok := n.(*ast.CallExpr)
+				if !ok {
+					return true
+				}
+				switch {
+				case isMutexCall(call, "Lock", "RLock"):
+					held = !safeLocks[call]
+				case isMutexCall(call, "Unlock", "RUnlock"):
+					held = false
+				case held && o.Status == "unsat":
+					dynamic := false
+					switch f := ast.Unparen(call.Fun).(type) {
+					case *ast.Ident:
+						_, dynamic = info.Uses[f].(*types.Var)
+					case *ast.SelectorExpr:
+						if s, ok := info.Selections[f]; ok {
+							if s.Kind() == types.FieldVal {
+								dynamic = true
+							} else if _, isIface := s.Recv().Underlying().(*types.Interface); isIface {
+								dynamic = true
+							}
+						}
+					}
+					if tv, ok := info.Types[call.Fun]; ok && tv.IsType() {
+						dynamic = false
+					}
+					if dynamic {
+						o.Status = "sat"
+						o.Raw = "a call that may run user code while the mutex is held at " + c.pos(call.Pos())
+						o.Desc += " — such a call at " + c.pos(call.Pos())
+						o.Pos = c.pos(call.Pos())
+					}
+				}
+				return true
+			})
+			out = append(out, o)
+		}
+	}
+	return out
+}
